@@ -356,6 +356,51 @@ fn main() {
         }
     }
 
+    // 0c. bundle settings that are accepted by the configuration reader but unusual: the modules identifier
+    for identifier in ["", "a-b", "1x", "end", "with space", "__M", "\u{e9}"] {
+        let config = format!(
+            "{{ generator: \"dense\", rules: [], bundle: {{ require_mode: \"path\", modules_identifier: \"{}\" }} }}",
+            identifier
+        );
+        process_runs += 1;
+        let outcome = {
+            let config_text = config.clone();
+            guarded(move || -> Result<String, String> {
+                let config: Configuration = json5::from_str(&config_text).map_err(|e| format!("config: {}", e))?;
+                let resources = Resources::from_memory();
+                resources.write("src/main.lua", "return require('./m')").map_err(|e| format!("write: {:?}", e))?;
+                resources.write("src/m.lua", "return 1").map_err(|e| format!("write: {:?}", e))?;
+                match darklua_core::process(
+                    &resources,
+                    Options::new("src/main.lua").with_output("out/main.lua").with_configuration(config),
+                ) {
+                    Ok(worker) => {
+                        let errors: Vec<String> = worker.collect_errors().iter().map(|e| e.to_string()).collect();
+                        if !errors.is_empty() {
+                            return Err(format!("process: {}", errors.join("; ")));
+                        }
+                    }
+                    Err(err) => return Err(format!("process: {}", err)),
+                }
+                resources.get("out/main.lua").map_err(|e| format!("read: {:?}", e))
+            })
+        };
+        let input = b"-- src/main.lua\nreturn require('./m')\n-- src/m.lua\nreturn 1";
+        match outcome {
+            Outcome::Done(Ok(output)) => {
+                if !check_parse(output.as_bytes(), "darklua-output", &mut hung) {
+                    report("OUTPUT-UNPARSABLE", &output, &config, input);
+                }
+            }
+            Outcome::Done(Err(_)) => rule_errors += 1,
+            Outcome::Panic(msg) => report("PROCESS-PANIC", &msg, &config, input),
+            Outcome::Hang => {
+                report("PROCESS-HANG", "no result within the time limit", &config, input);
+                hung = true;
+            }
+        }
+    }
+
     for case in 0..n {
         if hung {
             break;
